@@ -126,8 +126,8 @@ CHECKS["C17"] = (
     "accepted row certificate means untouched where K>=0, K'=-K and omega' within 1e-9 of omega+pi mod 2pi in [0,2pi) where K<0; at the time "
     "returned by get_time_with_phase the mean anomaly equals the requested phase; selection keeps header and metadata and returns the selected "
     "rows; median_period's index is a member of rank floor(n/2). Each run Coq compares the model with the implementation on random tables (index "
-    "expressions, copy, mean/std metadata, median_period, pack/unpack, every wrap_K row, time-of-phase). unpack(pack) is checked per case on the "
-    "model, its general proof is not done (partial).",
+    "expressions, copy, mean/std metadata, median_period, pack/unpack, every wrap_K row, time-of-phase). unpack(pack t) = t for every well-formed table (distinct names, equal column lengths: names, "
+    "units, values, metadata) and pack(unpack rows) = rows for every rectangular matrix are proved (C17_unpack_pack, C17_pack_unpack).",
     "Trusted: Coq kernel + vm_compute; Coq-Interval; stdlib real axioms; astropy unit conversion and Time arithmetic (1e-9); twobody orbits only "
     "in the predicate (RV curve before/after wrap_K).",
     "DESIGN.md 3 (C17)",
